@@ -92,8 +92,13 @@ def loop_stubs(instrs):
     import mqt.yaqs.digital.digital_tjm as D
     from mqt.yaqs.core.data_structures.networks import MPS
 
-    saved = (D.apply_single_qubit_gate, D.apply_two_qubit_gate, MPS.evaluate_observables)
-    events = []
+    saved = (D.apply_single_qubit_gate, D.apply_two_qubit_gate, MPS.evaluate_observables, MPS.normalize, MPS.measure_shots)
+
+    class Events(list):
+        pass
+
+    events = Events()
+    events.gauge = []  # the gauge word of the run: one/two-site gates, restorations of form B, reads (observables / shots)
     pool = {}
     for (i, kind, qs, name, par) in instrs:
         if kind in ("G1", "G2"):
@@ -106,23 +111,34 @@ def loop_stubs(instrs):
 
     def g1(state, node, *extra, **kw):
         events.append(("G", ident(node)))
+        events.gauge.append("GOne")
 
     def g2(state, node, sim_params, *extra, **kw):
         events.append(("G", ident(node)))
+        events.gauge.append("GTwo")
         a, b = (q._index for q in node.qargs)  # noqa: SLF001
         return min(a, b), max(a, b)
 
     def ev(self, p, results, column_index=0, *xa, **xk):
         events.append(("S", int(column_index)))
+        events.gauge.append("GRead")
 
-    D.apply_single_qubit_gate, D.apply_two_qubit_gate, MPS.evaluate_observables = g1, g2, ev
+    def norm(self, form="B", decomposition="QR", *xa, **xk):
+        events.gauge.append("GRestore" if form == "B" else f"normalize({form})")
+
+    def shots(self, shots, *xa, **xk):
+        events.gauge.append("GRead")
+        return {0: int(shots)}
+
+    D.apply_single_qubit_gate, D.apply_two_qubit_gate, MPS.evaluate_observables, MPS.normalize, MPS.measure_shots = g1, g2, ev, norm, shots
     try:
         yield events
     finally:
-        D.apply_single_qubit_gate, D.apply_two_qubit_gate, MPS.evaluate_observables = saved
+        D.apply_single_qubit_gate, D.apply_two_qubit_gate, MPS.evaluate_observables, MPS.normalize, MPS.measure_shots = saved
 
 
 HANGS = {"n": 0}
+GAUGE = {}  # id(event list) -> gauge word of that run
 
 
 def run_impl_trace(n, instrs, mode, limit=6.0):
@@ -144,7 +160,9 @@ def run_impl_trace(n, instrs, mode, limit=6.0):
                     p = StrongSimParams([Observable("z", 0)], sample_layers=(mode == "sampling"), show_progress=False)
                     S._run_strong_sim(MPS(n), qc, p, None, parallel=False)  # noqa: SLF001
                     cols = int(np.shape(p.observables[0].trajectories)[1])
-            return list(events), cols, None
+            out = list(events)
+            GAUGE[id(out)] = list(events.gauge)
+            return out, cols, None
         except common.HardTimeout:
             HANGS["n"] += 1
             return list(events), None, "TIMEOUT"
@@ -183,6 +201,17 @@ def correspond(ctx):
         impl.append(run_impl_trace(n, instrs, mode))
         exprs.append(f"(trajectory {g_bool(mode == 'sampling')} {g_instrs(instrs)}, columns_allocated {g_bool(mode == 'sampling')} {g_instrs(instrs)})")
     vals = common.coq_eval_sharded(HEADER, exprs, tag="c16")
+    MODE = {"sampling": "StrongSampling", "plain": "StrongPlain", "weak": "Weak"}
+    gvals = common.coq_eval_sharded(HEADER, [f"traj_word {MODE[mode]} {g_instrs(instrs)}" for (n, instrs, mode) in cases], tag="c16g")
+    for (n, instrs, mode), (events, cols, err), gv in zip(cases, impl, gvals):
+        if err or id(events) not in GAUGE:
+            continue
+        want = [x[0] if isinstance(x, common.App) else str(x) for x in gv[1]] if isinstance(gv, common.App) and gv[0] == "Some" else None
+        got = GAUGE.pop(id(events))
+        ctx.count("gauge_words")
+        if got != want:
+            ctx.mismatch("gauge word of the noise-free trajectory (gates, restorations of form B, reads) vs DigitalLoop.traj_word",
+                         {"qubits": n, "instrs": [list(x) for x in instrs], "mode": mode}, got, want, key="gauge-word")
     for (n, instrs, mode), (events, cols, err), (tr, mcols) in zip(cases, impl, vals):
         mev = model_events(tr)
         kinds = [k for (_, k, _, _, _) in instrs]
